@@ -6,7 +6,13 @@ Open Scope list_scope.
 
 Definition nb (s : bstate) : nat := List.length (bs_blocks s).
 Definition opened (s : bstate) (i : nat) : Prop := exists b, nth_error (bs_blocks s) i = Some b /\ b_term b = None.
-Definition Good (s : bstate) : Prop := 1 <= nb s /\ opened s (nb s - 1).
+(* every jump written so far targets an existing block *)
+(* [i]: the index of the block that carries the terminator -- an unconditional jump never targets its own block *)
+Definition tgt_ok (t : term) (k i : nat) : Prop := match t with TmBr l => l < k /\ l <> i | TmBrCond _ a c => a < k /\ c < k | _ => True end.
+Definition TOk (s : bstate) : Prop := forall i b t, nth_error (bs_blocks s) i = Some b -> b_term b = Some t -> tgt_ok t (nb s) i.
+Definition Good (s : bstate) : Prop := 1 <= nb s /\ opened s (nb s - 1) /\ TOk s.
+Lemma tgt_ok_mono t k k' i : k <= k' -> tgt_ok t k i -> tgt_ok t k' i.
+Proof. destruct t; cbn; intros; try tauto; lia. Qed.
 
 (* relative to a base n: the blocks below n - 1 are untouched (same content), blocks are only appended, the current block is open, locals grow *)
 Record RegB (n : nat) (s s' : bstate) : Prop := {
@@ -75,6 +81,27 @@ Qed.
 Lemma update_nth_same {A} (l : list A) i f x : nth_error l i = Some x -> nth_error (update_nth l i f) i = Some (f x).
 Proof. revert i. induction l as [|y r IH]; intros [|i] H; cbn in *; try discriminate; [inversion H; reflexivity|auto]. Qed.
 
+Lemma TOk_update s r b' loc np dg ex :
+  TOk s -> (forall t, b_term b' = Some t -> tgt_ok t (nb s) r) ->
+  TOk {| bs_blocks := update_nth (bs_blocks s) r (fun _ => b'); bs_locals := loc; bs_nparams := np; bs_diags := dg; bs_exempt := ex |}.
+Proof.
+  intros HT Hb i b t Hi Ht. unfold nb in *. cbn in *. rewrite update_nth_length.
+  destruct (Nat.eq_dec r i) as [->|Hne].
+  - destruct (nth_error (bs_blocks s) i) as [b0|] eqn:E0.
+    + erewrite update_nth_same in Hi by exact E0. inversion Hi; subst. apply Hb, Ht.
+    + exfalso. assert (Hn : nth_error (update_nth (bs_blocks s) i (fun _ => b')) i = None).
+      { apply nth_error_None. rewrite update_nth_length. apply nth_error_None. exact E0. }
+      rewrite Hn in Hi. discriminate.
+  - rewrite update_nth_other in Hi by exact Hne. eapply HT; eassumption.
+Qed.
+Lemma TOk_same_blocks s s' : bs_blocks s' = bs_blocks s -> TOk s -> TOk s'.
+Proof. intros B HT i b t Hi Ht. unfold nb. rewrite B in *. eapply HT; eassumption. Qed.
+
+Lemma Good_same_blocks s s' : bs_blocks s' = bs_blocks s -> Good s -> Good s'.
+Proof.
+  intros B [G1 [G2 GT]]. split; [unfold nb in *; rewrite B; exact G1|]. split; [unfold nb, opened in *; rewrite B; exact G2|eapply TOk_same_blocks; eassumption].
+Qed.
+
 Lemma with_block_keep_open r site f s n b b' :
   Good s -> nth_error (bs_blocks s) r = Some b -> f b = inl b' -> b_term b' = None -> n <= r + 1 ->
   match with_block r site f s with (P _, _) => False | (_, s') => RegB n s s' end.
@@ -83,10 +110,12 @@ Proof.
   assert (Hlen : nb {| bs_blocks := update_nth (bs_blocks s) r (fun _ => b'); bs_locals := bs_locals s; bs_nparams := bs_nparams s; bs_diags := bs_diags s; bs_exempt := bs_exempt s |} = nb s)
     by (unfold nb; cbn; apply update_nth_length).
   split; cbn.
-  - destruct G as [G1 [c [Hc Hct]]]. split; [rewrite Hlen; exact G1|]. rewrite Hlen. unfold opened. cbn.
-    destruct (Nat.eq_dec r (nb s - 1)) as [->|Hne].
-    + exists b'. split; [|exact Ht]. erewrite update_nth_same by exact Hb. reflexivity.
-    + exists c. split; [|exact Hct]. rewrite update_nth_other by exact Hne. exact Hc.
+  - destruct G as [G1 [[c [Hc Hct]] GT]]. split; [rewrite Hlen; exact G1|]. split.
+    + rewrite Hlen. unfold opened. cbn.
+      destruct (Nat.eq_dec r (nb s - 1)) as [->|Hne].
+      * exists b'. split; [|exact Ht]. erewrite update_nth_same by exact Hb. reflexivity.
+      * exists c. split; [|exact Hct]. rewrite update_nth_other by exact Hne. exact Hc.
+    + apply TOk_update; [exact GT|]. intros t Hbt. rewrite Ht in Hbt. discriminate.
   - unfold nb; cbn. rewrite update_nth_length. lia.
   - intros i Hi. apply update_nth_other. lia.
   - exists []. rewrite app_nil_r. reflexivity.
@@ -95,9 +124,9 @@ Qed.
 Lemma Safe_push_statement L st : Safe L (push_statement st).
 Proof.
   intros s n G HL Hn. unfold push_statement, mbind. pose proof (Safe_current_ref L s n G HL Hn) as Hc.
-  unfold current_ref in *. destruct G as [G1 [c [Hc1 Hc2]]]. unfold nb in *. destruct (bs_blocks s) as [|b0 bl] eqn:E; [cbn in G1; lia|]. rewrite <- E in *.
+  unfold current_ref in *. pose proof G as G0. destruct G as [G1 [[c [Hc1 Hc2]] GT]]. unfold nb in *. destruct (bs_blocks s) as [|b0 bl] eqn:E; [cbn in G1; lia|]. rewrite <- E in *.
   eapply with_block_keep_open with (b := c) (b' := {| b_stmts := b_stmts c ++ [st]; b_compl := b_compl c; b_term := None |}).
-  - split; [unfold nb; exact G1|exists c; auto].
+  - exact G0.
   - exact Hc1.
   - unfold b_push. rewrite Hc2. reflexivity.
   - reflexivity.
@@ -107,9 +136,9 @@ Qed.
 Lemma Safe_set_completion L a : Safe L (visit_expression_statement a).
 Proof.
   intros s n G HL Hn. unfold visit_expression_statement, mbind.
-  unfold current_ref. destruct G as [G1 [c [Hc1 Hc2]]]. unfold nb in *. destruct (bs_blocks s) as [|b0 bl] eqn:E; [cbn in G1; lia|]. rewrite <- E in *.
+  unfold current_ref. pose proof G as G0. destruct G as [G1 [[c [Hc1 Hc2]] GT]]. unfold nb in *. destruct (bs_blocks s) as [|b0 bl] eqn:E; [cbn in G1; lia|]. rewrite <- E in *.
   eapply with_block_keep_open with (b := c) (b' := {| b_stmts := b_stmts c; b_compl := Some (ensure_concrete_string a); b_term := None |}).
-  - split; [unfold nb; exact G1|exists c; auto].
+  - exact G0.
   - exact Hc1.
   - unfold b_set_compl. rewrite Hc2. reflexivity.
   - reflexivity.
@@ -247,36 +276,44 @@ Lemma mark_spec s : Good s ->
   exists s', mark_branch_point s = (V (nb s - 1), s') /\ nb s' = nb s + 1 /\ Good s' /\ bs_locals s' = bs_locals s /\
              (forall i, i < nb s -> nth_error (bs_blocks s') i = nth_error (bs_blocks s) i).
 Proof.
-  intros [G1 [c [Hc Ht]]]. unfold mark_branch_point, mbind, current_ref, push_block, ret. unfold nb in *.
+  intros [G1 [[c [Hc Ht]] GT]]. unfold mark_branch_point, mbind, current_ref, push_block, ret. unfold nb in *.
   destruct (bs_blocks s) as [|b0 bl] eqn:E; [cbn in G1; lia|]. rewrite <- E in *.
   eexists. split; [reflexivity|]. cbn. rewrite app_length. cbn. split; [reflexivity|]. split; [|split; [reflexivity|]].
-  - unfold Good, nb, opened. cbn. rewrite app_length. cbn. split; [lia|]. exists block0. split; [|reflexivity].
-    rewrite nth_error_app2 by lia. replace (_ - _) with 0 by lia. reflexivity.
+  - unfold Good, nb, opened. cbn. rewrite app_length. cbn. split; [lia|]. split.
+    + exists block0. split; [|reflexivity]. rewrite nth_error_app2 by lia. replace (_ - _) with 0 by lia. reflexivity.
+    + intros i b t Hi Hbt. unfold nb. cbn in Hi |- *. rewrite app_length. cbn.
+      destruct (Nat.lt_ge_cases i (List.length (bs_blocks s))) as [Hlt|Hge].
+      * rewrite nth_error_app1 in Hi by exact Hlt. eapply tgt_ok_mono; [|eapply GT; eassumption]. unfold nb. lia.
+      * rewrite nth_error_app2 in Hi by exact Hge. destruct (i - List.length (bs_blocks s)) as [|k]; cbn in Hi; [inversion Hi; subst; discriminate|destruct k; discriminate].
   - intros i Hi. apply nth_error_app1. exact Hi.
 Qed.
 
 Lemma opened_lt s i : opened s i -> i < nb s.
 Proof. intros [b [Hb _]]. apply nth_error_Some. unfold nb. rewrite Hb. discriminate. Qed.
 
-Lemma finalize_spec s r t : Good s -> opened s r -> r + 1 < nb s ->
+Lemma finalize_spec s r t : Good s -> opened s r -> r + 1 < nb s -> tgt_ok t (nb s) r ->
   exists s', finalize_at r t s = (V tt, s') /\ nb s' = nb s /\ Good s' /\ bs_locals s' = bs_locals s /\
              (forall i, i <> r -> nth_error (bs_blocks s') i = nth_error (bs_blocks s) i).
 Proof.
-  intros [G1 [c [Hc Ht]]] [b [Hb Hbt]] Hr. unfold finalize_at, with_block. rewrite Hb. unfold b_finalize. rewrite Hbt. cbn.
-  eexists. split; [reflexivity|]. unfold nb in *. cbn. rewrite update_nth_length. split; [reflexivity|]. split; [|split; [reflexivity|]].
-  - unfold Good, nb, opened. cbn. rewrite update_nth_length. split; [lia|]. exists c. split; [|exact Ht]. rewrite update_nth_other by lia. exact Hc.
-  - intros i Hi. apply update_nth_other. lia.
+  intros [G1 [[c [Hc Ht]] GT]] [b [Hb Hbt]] Hr Htg. unfold finalize_at, with_block. rewrite Hb. unfold b_finalize. rewrite Hbt. cbn.
+  eexists. split; [reflexivity|]. split; [unfold nb; cbn; apply update_nth_length|]. split; [|split; [reflexivity|]].
+  - unfold Good. split; [unfold nb in *; cbn; rewrite update_nth_length; lia|]. split.
+    + unfold nb, opened in *. cbn. rewrite update_nth_length. exists c. split; [|exact Ht]. rewrite update_nth_other by lia. exact Hc.
+    + apply TOk_update; [exact GT|]. cbn. intros t0 Ht0. inversion Ht0; subst. exact Htg.
+  - intros i Hi. cbn. apply update_nth_other. lia.
 Qed.
 
 Lemma push_at_spec s r st : Good s -> opened s r ->
   exists s', push_statement_at r st s = (V tt, s') /\ nb s' = nb s /\ Good s' /\ bs_locals s' = bs_locals s /\ opened s' r /\
              (forall i, i <> r -> nth_error (bs_blocks s') i = nth_error (bs_blocks s) i).
 Proof.
-  intros [G1 [c [Hc Ht]]] [b [Hb Hbt]]. unfold push_statement_at, with_block. rewrite Hb. unfold b_push. rewrite Hbt. cbn.
-  eexists. split; [reflexivity|]. unfold nb in *. cbn. rewrite update_nth_length. split; [reflexivity|]. split; [|split; [reflexivity|split]].
-  - unfold Good, nb, opened. cbn. rewrite update_nth_length. split; [lia|]. destruct (Nat.eq_dec r (List.length (bs_blocks s) - 1)) as [->|Hne].
-    + eexists. split; [erewrite update_nth_same by exact Hb; reflexivity|reflexivity].
-    + exists c. split; [|exact Ht]. rewrite update_nth_other by lia. exact Hc.
+  intros [G1 [[c [Hc Ht]] GT]] [b [Hb Hbt]]. unfold push_statement_at, with_block. rewrite Hb. unfold b_push. rewrite Hbt. cbn.
+  eexists. split; [reflexivity|]. split; [unfold nb; cbn; apply update_nth_length|]. split; [|split; [reflexivity|split]].
+  - unfold Good. split; [unfold nb in *; cbn; rewrite update_nth_length; lia|]. split.
+    + unfold nb, opened in *. cbn. rewrite update_nth_length. destruct (Nat.eq_dec r (List.length (bs_blocks s) - 1)) as [->|Hne].
+      * eexists. split; [erewrite update_nth_same by exact Hb; reflexivity|reflexivity].
+      * exists c. split; [|exact Ht]. rewrite update_nth_other by lia. exact Hc.
+    + apply TOk_update; [exact GT|]. cbn. intros t0 Ht0. discriminate.
   - unfold opened. cbn. eexists. split; [erewrite update_nth_same by exact Hb; reflexivity|reflexivity].
   - intros i Hi. apply update_nth_other. lia.
 Qed.
@@ -298,7 +335,7 @@ Proof. intros G. exact G. Qed.
 Lemma RegB_same_blocks n s s' : Good s -> bs_blocks s' = bs_blocks s -> (exists suf, bs_locals s' = bs_locals s ++ suf) -> RegB n s s'.
 Proof.
   intros G B L. split.
-  - unfold Good, nb, opened in *. rewrite B. exact G.
+  - destruct G as [G1 [G2 GT]]. split; [unfold nb in *; rewrite B; exact G1|]. split; [unfold nb, opened in *; rewrite B; exact G2|eapply TOk_same_blocks; eassumption].
   - unfold nb. rewrite B. apply le_n.
   - intros i _. rewrite B. reflexivity.
   - exact L.
@@ -319,11 +356,11 @@ Proof.
   destruct (m_deduce_cases E (operand_tdesc (ensure_concrete_string conseq)) (operand_tdesc (ensure_concrete_string alt)) s) as [[ty Ed]|[d Ed]]; rewrite Ed;
     [|apply RegB_same_blocks; [exact G|reflexivity|exists []; rewrite app_nil_r; reflexivity]].
   unfold mbind at 1. destruct (alloca_spec s ty) as (sink & s1 & E1 & B1 & [suf L1]). rewrite E1.
-  assert (G1 : Good s1) by (unfold Good, nb, opened in *; rewrite B1; exact G).
+  assert (G1 : Good s1) by (eapply Good_same_blocks; [exact B1|exact G]).
   assert (N1 : nb s1 = nb s) by (unfold nb; rewrite B1; reflexivity).
   assert (O1 : forall i, opened s i -> opened s1 i) by (intros i; apply opened_eq; rewrite B1; reflexivity).
   unfold mbind at 1.
-  destruct (finalize_spec s1 cr (TmBrCond cond (S cr) (S qr)) G1 (O1 _ Oc) ltac:(lia)) as (s2 & E2 & N2 & G2 & L2 & K2). rewrite E2.
+  destruct (finalize_spec s1 cr (TmBrCond cond (S cr) (S qr)) G1 (O1 _ Oc) ltac:(lia) ltac:(cbn; lia)) as (s2 & E2 & N2 & G2 & L2 & K2). rewrite E2.
   assert (Oq2 : opened s2 qr) by (apply (opened_eq s1); [apply K2; lia|apply O1, Oq]).
   assert (Oa2 : opened s2 ar) by (apply (opened_eq s1); [apply K2; lia|apply O1, Oa]).
   unfold mbind at 1.
@@ -332,14 +369,14 @@ Proof.
                      /\ nb s3 = nb s2 /\ Good s3 /\ bs_locals s3 = bs_locals s2 /\ opened s3 qr /\ (forall i, i <> qr -> nth_error (bs_blocks s3) i = nth_error (bs_blocks s2) i)) as (s3 & E3 & N3 & G3 & L3 & Oq3 & K3).
   { destruct sink as [sk|]; [apply push_at_spec; assumption|exists s2; exact (conj eq_refl (conj eq_refl (conj G2 (conj eq_refl (conj Oq2 (fun _ _ => eq_refl))))))]. }
   rewrite E3. unfold mbind at 1.
-  destruct (finalize_spec s3 qr (TmBr (S ar)) G3 Oq3 ltac:(lia)) as (s4 & E4 & N4 & G4 & L4 & K4). rewrite E4.
+  destruct (finalize_spec s3 qr (TmBr (S ar)) G3 Oq3 ltac:(lia) ltac:(cbn; lia)) as (s4 & E4 & N4 & G4 & L4 & K4). rewrite E4.
   assert (Oa4 : opened s4 ar) by (apply (opened_eq s3); [apply K4; lia|apply (opened_eq s2); [apply K3; lia|exact Oa2]]).
   unfold mbind at 1.
   assert (exists s5, (match sink with Some sk => push_statement_at ar (TAssign (local_index sk) (RCopy (ensure_concrete_string alt))) | None => ret tt end) s4 = (V tt, s5)
                      /\ nb s5 = nb s4 /\ Good s5 /\ bs_locals s5 = bs_locals s4 /\ opened s5 ar /\ (forall i, i <> ar -> nth_error (bs_blocks s5) i = nth_error (bs_blocks s4) i)) as (s5 & E5 & N5 & G5 & L5 & Oa5 & K5).
   { destruct sink as [sk|]; [apply push_at_spec; assumption|exists s4; exact (conj eq_refl (conj eq_refl (conj G4 (conj eq_refl (conj Oa4 (fun _ _ => eq_refl))))))]. }
   rewrite E5. unfold mbind at 1.
-  destruct (finalize_spec s5 ar (TmBr (S ar)) G5 Oa5 ltac:(lia)) as (s6 & E6 & N6 & G6 & L6 & K6). rewrite E6.
+  destruct (finalize_spec s5 ar (TmBr (S ar)) G5 Oa5 ltac:(lia) ltac:(cbn; lia)) as (s6 & E6 & N6 & G6 & L6 & K6). rewrite E6.
   cbn. split; [exact G6|lia| |exists suf; congruence].
   intros i Hi. rewrite K6, K5, K4, K3, K2 by lia. rewrite B1. reflexivity.
 Qed.
@@ -354,18 +391,18 @@ Proof.
   assert (Hsk : exists sk, sink = Some sk).
   { unfold alloca in E1. change (tkind_eqb T_BOOL T_VOID) with false in E1. inversion E1. eexists. reflexivity. }
   destruct Hsk as [sk ->].
-  assert (G1 : Good s1) by (unfold Good, nb, opened in *; rewrite B1; exact G).
+  assert (G1 : Good s1) by (eapply Good_same_blocks; [exact B1|exact G]).
   assert (N1 : nb s1 = nb s) by (unfold nb; rewrite B1; reflexivity).
   assert (O1 : forall i, opened s i -> opened s1 i) by (intros i; apply opened_eq; rewrite B1; reflexivity).
   unfold mbind at 1.
   destruct (push_at_spec s1 lr (TAssign (local_index sk) (RCopy (OConst (CBool (negb is_and))))) G1 (O1 _ Ol)) as (s2 & E2 & N2 & G2 & L2 & Ol2 & K2). rewrite E2.
   unfold mbind at 1.
-  destruct (finalize_spec s2 lr (TmBrCond lhs (if is_and then S lr else S rr) (if is_and then S rr else S lr)) G2 Ol2 ltac:(lia)) as (s3 & E3 & N3 & G3 & L3 & K3). rewrite E3.
+  destruct (finalize_spec s2 lr (TmBrCond lhs (if is_and then S lr else S rr) (if is_and then S rr else S lr)) G2 Ol2 ltac:(lia) ltac:(cbn; destruct is_and; lia)) as (s3 & E3 & N3 & G3 & L3 & K3). rewrite E3.
   assert (Or3 : opened s3 rr) by (apply (opened_eq s2); [apply K3; lia|apply (opened_eq s1); [apply K2; lia|apply O1, Or]]).
   unfold mbind at 1.
   destruct (push_at_spec s3 rr (TAssign (local_index sk) (RCopy rhs)) G3 Or3) as (s4 & E4 & N4 & G4 & L4 & Or4 & K4). rewrite E4.
   unfold mbind at 1.
-  destruct (finalize_spec s4 rr (TmBr (S rr)) G4 Or4 ltac:(lia)) as (s5 & E5 & N5 & G5 & L5 & K5). rewrite E5.
+  destruct (finalize_spec s4 rr (TmBr (S rr)) G4 Or4 ltac:(lia) ltac:(cbn; lia)) as (s5 & E5 & N5 & G5 & L5 & K5). rewrite E5.
   cbn. split; [exact G5|lia| |exists suf; congruence].
   intros i Hi. rewrite K5, K4, K3, K2 by lia. rewrite B1. reflexivity.
 Qed.
@@ -391,7 +428,7 @@ Proof.
   assert (R2 : RegB (nb s) s s2).
   { split; [exact G2|lia| |destruct (g_locals _ _ _ R1) as [suf Hs]; exists suf; congruence]. intros i Hi. rewrite K2 by lia. apply (g_keep _ _ _ R1). exact Hi. }
   set (cl := nb s1 - 1) in *.
-  assert (Ocl2 : opened s2 cl). { pose proof G1 as [Ga O]. apply (opened_eq s1); [apply K2; unfold cl; lia|exact O]. }
+  assert (Ocl2 : opened s2 cl). { pose proof G1 as [Ga [O _]]. apply (opened_eq s1); [apply K2; unfold cl; lia|exact O]. }
   unfold mbind at 1. pose proof (Safe_run L ma s2 Ha G2 ltac:(lia)) as R3. destruct (ma s2) as [[conseq| |x] s3]; [|eapply RegB_weaken; [exact Hn|eapply RegB_trans; [exact R2|eapply RegB_weaken; [|exact R3]; lia]]|exact R3].
   pose proof (g_good _ _ _ R3) as G3. pose proof (proj1 G3) as P3. pose proof (RegB_locals _ _ _ R3) as LL3. pose proof (g_len _ _ _ R3) as N3.
   assert (Ocl3 : opened s3 cl) by (eapply RegB_opened; [exact R3|unfold cl; lia|exact Ocl2]).
@@ -399,7 +436,7 @@ Proof.
   assert (M4 : List.length (bs_locals s4) = List.length (bs_locals s3)) by (rewrite L4; reflexivity).
   set (ql := nb s3 - 1) in *.
   assert (Ocl4 : opened s4 cl) by (apply (opened_eq s3); [apply K4; unfold cl; lia|exact Ocl3]).
-  assert (Oql4 : opened s4 ql). { pose proof G3 as [Ga O]. apply (opened_eq s3); [apply K4; unfold ql; lia|exact O]. }
+  assert (Oql4 : opened s4 ql). { pose proof G3 as [Ga [O _]]. apply (opened_eq s3); [apply K4; unfold ql; lia|exact O]. }
   assert (R4 : RegB (nb s) s s4).
   { eapply RegB_trans; [exact R2|]. eapply RegB_trans; [eapply RegB_weaken; [|exact R3]; lia|].
     split; [exact G4|lia| |exists []; rewrite app_nil_r; exact L4]. intros i Hi. apply K4. lia. }
@@ -412,7 +449,7 @@ Proof.
   set (al := nb s5 - 1) in *.
   assert (Ocl6 : opened s6 cl) by (apply (opened_eq s5); [apply K6; unfold cl; lia|exact Ocl5]).
   assert (Oql6 : opened s6 ql) by (apply (opened_eq s5); [apply K6; unfold ql; lia|exact Oql5]).
-  assert (Oal6 : opened s6 al). { pose proof G5 as [Ga O]. apply (opened_eq s5); [apply K6; unfold al; lia|exact O]. }
+  assert (Oal6 : opened s6 al). { pose proof G5 as [Ga [O _]]. apply (opened_eq s5); [apply K6; unfold al; lia|exact O]. }
   assert (R6 : RegB (nb s) s s6).
   { eapply RegB_trans; [exact R4|]. eapply RegB_trans; [eapply RegB_weaken; [|exact R5]; lia|].
     split; [exact G6|lia| |exists []; rewrite app_nil_r; exact L6]. intros i Hi. apply K6. lia. }
@@ -421,7 +458,7 @@ Proof.
   destruct (check_condition_type cond s6) as [[u| |x] s7] eqn:E7; [|eapply RegB_weaken; [exact Hn|eapply RegB_trans; eassumption]|exact R7].
   assert (B7 : bs_blocks s7 = bs_blocks s6).
   { unfold check_condition_type in E7. destruct (tdesc_eqb _ _); cbn in E7; inversion E7; reflexivity. }
-  assert (G7 : Good s7) by (unfold Good, nb, opened in *; rewrite B7; exact G6).
+  assert (G7 : Good s7) by (eapply Good_same_blocks; [exact B7|exact G6]).
   assert (N7 : nb s7 = nb s6) by (unfold nb; rewrite B7; reflexivity).
   assert (O7 : forall i, opened s6 i -> opened s7 i) by (intros i; apply opened_eq; rewrite B7; reflexivity).
   unfold mbind at 1.
@@ -451,7 +488,7 @@ Proof.
   assert (R2 : RegB (nb s) s s2).
   { split; [exact G2|lia| |destruct (g_locals _ _ _ R1) as [suf Hs]; exists suf; congruence]. intros i Hi. rewrite K2 by lia. apply (g_keep _ _ _ R1). exact Hi. }
   set (ll := nb s1 - 1) in *.
-  assert (Oll2 : opened s2 ll). { pose proof G1 as [Ga O]. apply (opened_eq s1); [apply K2; unfold ll; lia|exact O]. }
+  assert (Oll2 : opened s2 ll). { pose proof G1 as [Ga [O _]]. apply (opened_eq s1); [apply K2; unfold ll; lia|exact O]. }
   unfold mbind at 1. pose proof (Safe_run L mr s2 Hr G2 ltac:(lia)) as R3. destruct (mr s2) as [[rhs| |x] s3]; [|eapply RegB_weaken; [exact Hn|eapply RegB_trans; [exact R2|eapply RegB_weaken; [|exact R3]; lia]]|exact R3].
   pose proof (g_good _ _ _ R3) as G3. pose proof (proj1 G3) as P3. pose proof (RegB_locals _ _ _ R3) as LL3. pose proof (g_len _ _ _ R3) as N3.
   assert (Oll3 : opened s3 ll) by (eapply RegB_opened; [exact R3|unfold ll; lia|exact Oll2]).
@@ -459,7 +496,7 @@ Proof.
   assert (M4 : List.length (bs_locals s4) = List.length (bs_locals s3)) by (rewrite L4; reflexivity).
   set (rl := nb s3 - 1) in *.
   assert (Oll4 : opened s4 ll) by (apply (opened_eq s3); [apply K4; unfold ll; lia|exact Oll3]).
-  assert (Orl4 : opened s4 rl). { pose proof G3 as [Ga O]. apply (opened_eq s3); [apply K4; unfold rl; lia|exact O]. }
+  assert (Orl4 : opened s4 rl). { pose proof G3 as [Ga [O _]]. apply (opened_eq s3); [apply K4; unfold rl; lia|exact O]. }
   assert (R4 : RegB (nb s) s s4).
   { eapply RegB_trans; [exact R2|]. eapply RegB_trans; [eapply RegB_weaken; [|exact R3]; lia|].
     split; [exact G4|lia| |exists []; rewrite app_nil_r; exact L4]. intros i Hi. apply K4. lia. }
